@@ -87,6 +87,9 @@ type Task struct {
 	Stack     string
 	gid       int64 // goroutine id, for the channel fallback
 	chanEnd   int32 // set (atomically) when the task has left its channel operation
+	implicit  bool  // descheduled by the watchdog while parked inside uninstrumented code
+	inServer  int32 // > 0 while the task executes the system under test (not harness code)
+	simWait   int32 // > 0 while the task waits inside simrt itself (bolt helper goroutine)
 }
 
 type abortT struct{}
@@ -137,6 +140,13 @@ type Sim struct {
 
 	gidMu sync.Mutex
 	byGID map[int64]*Task
+
+	implicit       int32 // number of tasks descheduled by the watchdog and not yet back under the baton
+	beat           int64 // bumped at every entry into simrt
+	inGate         int32 // goroutines currently inside gateSlow (they may wait for impMu)
+	impMu          sync.Mutex
+	stopDog        chan struct{}
+	ImplicitBlocks int64 // probe: the baton holder was found parked inside uninstrumented code
 }
 
 // active is the simulation instrumented code talks to.  Only the baton holder
@@ -189,6 +199,9 @@ func NewSim(seed int64, pol Policy, replay []Deviation, isReplay bool, budget in
 // Spawn registers a task.  Tasks start running only inside Run.
 func (s *Sim) Spawn(name string, f func()) *Task {
 	t := &Task{ID: len(s.tasks), Name: name, wake: make(chan struct{}, 1), holding: map[string]int{}}
+	if s.cur != nil {
+		t.inServer = atomic.LoadInt32(&s.cur.inServer)
+	}
 	if s.policy.Kind == "pct" {
 		t.prio = 1000 + s.rng.Intn(1000000)
 	}
@@ -213,6 +226,7 @@ func (s *Sim) Spawn(name string, f func()) *Task {
 				f()
 			}()
 		}
+		gated() // a task released from a block inside uninstrumented code ends here without another scheduling point
 		t.noPreempt = 0
 		s.exit(t)
 	}()
@@ -245,8 +259,11 @@ func (s *Sim) Run() {
 		}
 	}
 	s.cur = first
+	s.stopDog = make(chan struct{})
+	go s.watchdog()
 	first.wake <- struct{}{}
 	<-s.done
+	close(s.stopDog)
 	active = nil
 }
 
@@ -270,7 +287,7 @@ func (s *Sim) Tasks() []*Task { return s.tasks }
 
 // Cur returns the id of the task holding the baton (-1 outside a run).
 func Cur() int {
-	if s := active; s != nil && s.cur != nil {
+	if s := gated(); s != nil && s.cur != nil {
 		return s.cur.ID
 	}
 	return -1
@@ -279,7 +296,7 @@ func Cur() int {
 // BeginOp tells the scheduler the current task starts its op-th operation;
 // the task-local scheduling-point counter restarts from zero.
 func BeginOp(op int) {
-	if s := active; s != nil && s.cur != nil {
+	if s := gated(); s != nil && s.cur != nil {
 		s.cur.op, s.cur.idx = op, 0
 	}
 }
@@ -296,7 +313,7 @@ func StepNow() int64 {
 // Yield is the statement-boundary scheduling point inserted by the
 // instrumenter.
 func Yield(site string) {
-	s := active
+	s := gated()
 	if s == nil {
 		return
 	}
@@ -305,7 +322,7 @@ func Yield(site string) {
 
 // Point is a scheduling point for simulated I/O and operation boundaries.
 func Point(site string) {
-	s := active
+	s := gated()
 	if s == nil {
 		return
 	}
@@ -315,7 +332,7 @@ func Point(site string) {
 // NoPreempt raises (+1) or lowers (-1) the calling task's no-preempt depth;
 // while it is positive, scheduling points are inert.
 func NoPreempt(delta int) {
-	s := active
+	s := gated()
 	if s == nil || s.cur == nil {
 		return
 	}
@@ -525,7 +542,7 @@ func (s *Sim) noRunnable() *Task {
 // returns when the simulator gives up on the peer (the connection is then
 // reported as reset by the caller).
 func WaitExternal(reason string) {
-	s := active
+	s := gated()
 	if s == nil || s.cur == nil || s.aborted {
 		return
 	}
@@ -659,7 +676,7 @@ type Mutex struct {
 func lockName(p interface{}) string { return fmt.Sprintf("%T@%p", p, p) }
 
 func (m *Mutex) Lock() {
-	s := active
+	s := gated()
 	if s == nil || s.cur == nil {
 		m.real.Lock()
 		return
@@ -680,7 +697,7 @@ func (m *Mutex) Lock() {
 }
 
 func (m *Mutex) Unlock() {
-	s := active
+	s := gated()
 	if s == nil || s.cur == nil {
 		m.real.Unlock()
 		return
@@ -705,7 +722,7 @@ func (m *Mutex) Unlock() {
 
 // TryLock mirrors sync.Mutex.TryLock.
 func (m *Mutex) TryLock() bool {
-	s := active
+	s := gated()
 	if s == nil || s.cur == nil {
 		return m.real.TryLock()
 	}
@@ -744,7 +761,7 @@ func (m *RWMutex) wakeAll() {
 }
 
 func (m *RWMutex) Lock() {
-	s := active
+	s := gated()
 	if s == nil || s.cur == nil {
 		m.real.Lock()
 		return
@@ -767,7 +784,7 @@ func (m *RWMutex) Lock() {
 }
 
 func (m *RWMutex) Unlock() {
-	s := active
+	s := gated()
 	if s == nil || s.cur == nil {
 		m.real.Unlock()
 		return
@@ -784,7 +801,7 @@ func (m *RWMutex) Unlock() {
 }
 
 func (m *RWMutex) RLock() {
-	s := active
+	s := gated()
 	if s == nil || s.cur == nil {
 		m.real.RLock()
 		return
@@ -808,7 +825,7 @@ func (m *RWMutex) RLock() {
 }
 
 func (m *RWMutex) RUnlock() {
-	s := active
+	s := gated()
 	if s == nil || s.cur == nil {
 		m.real.RUnlock()
 		return
@@ -844,7 +861,7 @@ type WaitGroup struct {
 }
 
 func (w *WaitGroup) Add(d int) {
-	s := active
+	s := gated()
 	if s == nil || s.cur == nil {
 		w.real.Add(d)
 		return
@@ -875,7 +892,7 @@ func (w *WaitGroup) Go(f func()) {
 }
 
 func (w *WaitGroup) Wait() {
-	s := active
+	s := gated()
 	if s == nil || s.cur == nil {
 		w.real.Wait()
 		return
@@ -911,7 +928,7 @@ func (o *Once) Do(f func()) {
 // Go replaces the go statement: inside a simulation the function becomes a
 // new task; outside it is a plain goroutine.
 func Go(f func()) {
-	s := active
+	s := gated()
 	if s == nil || s.cur == nil {
 		go f()
 		return
@@ -927,7 +944,7 @@ func Go(f func()) {
 // simulator-level writer lock (mirroring bbolt's own), makes the transaction
 // body non-preemptible and reports the boundaries to TxHook.
 func BoltTx(write bool, f func() error) error {
-	s := active
+	s := gated()
 	if s == nil || s.cur == nil {
 		return f()
 	}
@@ -970,6 +987,8 @@ func BoltTx(write bool, f func() error) error {
 		}()
 		r.err = f()
 	}()
+	atomic.AddInt32(&t.simWait, 1)
+	defer atomic.AddInt32(&t.simWait, -1)
 	select {
 	case r := <-done:
 		if r.pan != nil {
@@ -1000,7 +1019,7 @@ type Cond struct {
 func NewCond(l sync.Locker) *Cond { return &Cond{L: l, real: sync.NewCond(l)} }
 
 func (c *Cond) Wait() {
-	s := active
+	s := gated()
 	if s == nil || s.cur == nil {
 		c.real.Wait()
 		return
@@ -1016,7 +1035,7 @@ func (c *Cond) Wait() {
 }
 
 func (c *Cond) Signal() {
-	s := active
+	s := gated()
 	if s == nil || s.cur == nil {
 		c.real.Signal()
 		return
@@ -1033,7 +1052,7 @@ func (c *Cond) Signal() {
 }
 
 func (c *Cond) Broadcast() {
-	s := active
+	s := gated()
 	if s == nil || s.cur == nil {
 		c.real.Broadcast()
 		return
@@ -1118,6 +1137,7 @@ func parkedInChan(st string) bool {
 
 // promoteChan makes tasks that have left their channel operation runnable.
 func (s *Sim) promoteChan() {
+	s.settleImplicit()
 	for _, x := range s.tasks {
 		if x.state == stChan && atomic.LoadInt32(&x.chanEnd) == 1 {
 			x.state = stRunnable
@@ -1184,7 +1204,7 @@ func (s *Sim) waitChan() *Task {
 
 // ChanBegin is inserted before a channel operation of the code under test.
 func ChanBegin(site string) {
-	s := active
+	s := gated()
 	if s == nil || s.cur == nil || s.aborted {
 		return
 	}
@@ -1235,6 +1255,13 @@ func (s *Sim) watch(t *Task, site string) {
 			}
 		}
 	}
+	s.handOverFromOutside(t, site, ok)
+}
+
+// handOverFromOutside makes the scheduling decision that follows t's channel
+// operation (or its descheduling by the watchdog) on a goroutine that is not
+// a task, and wakes the task chosen.
+func (s *Sim) handOverFromOutside(t *Task, site string, ok bool) {
 	var next *Task
 	func() {
 		defer func() {
@@ -1306,4 +1333,163 @@ func Close[T any](site string, ch chan<- T) {
 	ChanBegin(site)
 	close(ch)
 	ChanEnd()
+}
+
+// ---------------------------------------------------------------- blocked inside uninstrumented code
+//
+// The simulator owns the blocking primitives of the instrumented packages.
+// Code under test may still block inside a dependency: io.Pipe, a library's
+// own channels or condition variables.  The baton holder would then be parked
+// in the Go runtime with the baton in its hand.  A watchdog goroutine notices
+// (no scheduling step for two ticks, the holder's goroutine in a blocking wait
+// state), deschedules the holder as if it had blocked on a simulated primitive
+// and hands the baton on.  When whatever it waited for happens, the task runs
+// on until its next call into simrt; every entry point passes through a gate
+// that, while any task is in this state, compares the caller's goroutine with
+// the baton holder's and parks a caller that is not the holder until it is
+// scheduled again.  Before each scheduling decision the tasks in this state
+// are given time to either reach the gate or park again, so that what is
+// runnable at a decision is a function of what happened before it.
+
+// EnterServer / LeaveServer bracket the execution of the system under test by
+// a task; the watchdog never deschedules a task that is waiting in harness code.
+func EnterServer() {
+	if s := gated(); s != nil && s.cur != nil {
+		atomic.AddInt32(&s.cur.inServer, 1)
+	}
+}
+
+func LeaveServer() {
+	if s := gated(); s != nil && s.cur != nil {
+		atomic.AddInt32(&s.cur.inServer, -1)
+	}
+}
+
+func gated() *Sim {
+	s := active
+	if s != nil {
+		s.beat++ // read by the watchdog: a holder that keeps calling into simrt is not parked
+		if atomic.LoadInt32(&s.implicit) != 0 {
+			s.gateSlow()
+		}
+	}
+	return s
+}
+
+func (s *Sim) gateSlow() {
+	atomic.AddInt32(&s.inGate, 1)
+	gid := curGID()
+	s.impMu.Lock()
+	cur := s.cur
+	if cur != nil && cur.gid == gid {
+		s.impMu.Unlock()
+		atomic.AddInt32(&s.inGate, -1)
+		return
+	}
+	s.gidMu.Lock()
+	t := s.byGID[gid]
+	s.gidMu.Unlock()
+	if t == nil || !t.implicit {
+		s.impMu.Unlock()
+		atomic.AddInt32(&s.inGate, -1)
+		return // a helper goroutine of the baton holder
+	}
+	s.impMu.Unlock()
+	atomic.AddInt32(&s.inGate, -1)
+	atomic.StoreInt32(&t.chanEnd, 1)
+	<-t.wake
+	t.implicit = false
+	atomic.AddInt32(&s.implicit, -1)
+	if s.aborted {
+		panic(abortSentinel)
+	}
+}
+
+func blockedInRuntime(st string) bool {
+	for _, p := range []string{"chan receive", "chan send", "select", "sync.Cond.Wait", "sync.Mutex.Lock", "sync.RWMutex", "semacquire", "sync.WaitGroup.Wait", "sleep", "IO wait"} {
+		if strings.HasPrefix(st, p) {
+			return true
+		}
+	}
+	return false
+}
+
+// WatchdogTick is the watchdog's sampling period.
+var WatchdogTick = 500 * time.Microsecond
+
+func (s *Sim) watchdog() {
+	var lastSteps, lastBeat int64 = -1, -1
+	var lastCur *Task
+	stalled := 0
+	tk := time.NewTicker(WatchdogTick)
+	defer tk.Stop()
+	for {
+		select {
+		case <-s.stopDog:
+			return
+		case <-tk.C:
+		}
+		cur, steps, beat := s.cur, atomic.LoadInt64(&s.steps), atomic.LoadInt64(&s.beat)
+		if cur == nil || cur != lastCur || steps != lastSteps || beat != lastBeat {
+			lastCur, lastSteps, lastBeat, stalled = cur, steps, beat, 0
+			continue
+		}
+		stalled++
+		if stalled < 2 || s.aborted || cur.state != stRunnable || atomic.LoadInt32(&cur.inServer) <= 0 || atomic.LoadInt32(&cur.simWait) > 0 || atomic.LoadInt32(&s.inGate) > 0 {
+			continue
+		}
+		if !blockedInRuntime(gstatus(cur.gid)) {
+			continue
+		}
+		// deschedule the holder from outside
+		s.impMu.Lock()
+		atomic.AddInt32(&s.implicit, 1)
+		if s.cur != cur || atomic.LoadInt64(&s.steps) != steps || atomic.LoadInt64(&s.beat) != beat || atomic.LoadInt32(&s.inGate) > 0 ||
+			!blockedInRuntime(gstatus(cur.gid)) || atomic.LoadInt32(&cur.simWait) > 0 {
+			atomic.AddInt32(&s.implicit, -1)
+			s.impMu.Unlock()
+			stalled = 0
+			continue
+		}
+		s.ImplicitBlocks++
+		atomic.StoreInt32(&cur.chanEnd, 0)
+		cur.state = stChan
+		cur.implicit = true
+		cur.blockedOn = "a blocking call inside uninstrumented code"
+		cur.idx++
+		s.steps++
+		// nobody holds the baton while the decision is made: a task released
+		// right now finds no holder at the gate and parks there
+		s.cur = nil
+		s.impMu.Unlock()
+		s.handOverFromOutside(cur, cur.blockedOn, true)
+		stalled = 0
+	}
+}
+
+// settleImplicit gives every task descheduled by the watchdog time to either
+// reach the gate or park again.
+func (s *Sim) settleImplicit() {
+	if atomic.LoadInt32(&s.implicit) == 0 {
+		return
+	}
+	for _, x := range s.tasks {
+		if x.state != stChan || !x.implicit {
+			continue
+		}
+		deadline := time.Now().Add(chanSettleLimit)
+		for spins := 0; ; spins++ {
+			if atomic.LoadInt32(&x.chanEnd) == 1 || blockedInRuntime(gstatus(x.gid)) {
+				break
+			}
+			if time.Now().After(deadline) {
+				break
+			}
+			if spins < 50 {
+				runtime.Gosched()
+			} else {
+				time.Sleep(50 * time.Microsecond)
+			}
+		}
+	}
 }
